@@ -1,7 +1,7 @@
 """C03 — datagram payloads are never altered and the size contract is exact."""
 import re
 from rules import shared
-from rulelib import walk, match_table, nonpanic, path_sig, event_strs, where, canon
+from rulelib import walk, match_table, nonpanic, path_sig, event_strs, where, canon, apply_closure
 import obligations
 
 import witness
@@ -81,23 +81,49 @@ def run(ctx):
     ctx.check("C03-R1", "Deref slices from payload_offset", ls == ["return &*<impl Index<I> for [T]>::index(&*self.quic_dgram,RangeFrom(*self.payload_offset))"], "Deref for Datagram changed: %s" % ls, where(f))
 
     ctx.rule("C03-R2", "quarter stream id conversion: write uses from_session_id (>>2), read uses into_session_id (<<2), header size from the quarter id")
-    f = A.fn("wtransport::datagram::Datagram::header_size")
-    ls = [path_sig(p)[1] for p in nonpanic(walk(f))]
-    ctx.check("C03-R2", "driver header_size", ls == ["return Datagram::header_size(QStreamId::from_session_id(session_id))"], "driver Datagram::header_size is not proto header_size(QStreamId::from_session_id(session_id)): %s" % ls, where(f))
+    f = A.fn_opt("wtransport::datagram::Datagram::header_size")
+    if f is not None:  # the helper may be inlined away; the normal-form rule of C03-R3 does not depend on it
+        ls = [path_sig(p)[1] for p in nonpanic(walk(f))]
+        ctx.check("C03-R2", "driver header_size", ls == ["return Datagram::header_size(QStreamId::from_session_id(session_id))"], "driver Datagram::header_size is not proto header_size(QStreamId::from_session_id(session_id)): %s" % ls, where(f))
     shared.qstream_algebra(ctx, "C03-R2")
 
     ctx.rule("C03-R3", "size contract: max = quinn_max - header(session); send hands header++payload unchanged to quinn; 1:1 error mapping")
+    # normal form: every local helper is looked through down to the id algebra (VarInt / QStreamId / SessionId) and quinn, closures are
+    # applied to what they capture, so the rule states *what* is subtracted, not through which helpers
+    STOP = re.compile(r"^wtransport_proto::(varint::VarInt|ids::(QStreamId|SessionId|StreamId))::|^quinn|^<wtransport_proto::bytes::BufferWriter")
+    HDR = "VarInt::size(QStreamId::into_varint(QStreamId::from_session_id(%s)))"
     f = A.fn("wtransport::connection::Connection::max_datagram_size")
-    ls = [path_sig(p)[1] for p in nonpanic(walk(f))]
-    m = re.match(r"^return Option::(map|and_then)\(Connection::max_datagram_size\(&\*self\.quic_connection\),closure:Connection::\{closure#0\}\)$", ls[0]) if len(ls) == 1 else None
-    ctx.check("C03-R3", "max_datagram_size shape", m is not None, "Connection::max_datagram_size is not quinn's max mapped through one closure: %s" % ls, where(f))
-    cl = A.find1(r"^wtransport::connection::Connection::max_datagram_size::\{closure#0\}$")
-    cls = [path_sig(p) for p in nonpanic(walk(cl))]
-    H = r"Datagram::header_size\(\*self\.session_id\)"
-    good_plain = cls == [((), "return SubWithOverflow(quic_max_size,Datagram::header_size(*self.session_id)).0")]
-    good_checked = [l for a, l in cls] == ["return <impl usize>::checked_sub(quic_max_size,Datagram::header_size(*self.session_id))"]
-    ctx.check("C03-R3", "max = quinn_max - header_size(session_id)", good_plain or good_checked,
-              "max_datagram_size is not `quic_max - Datagram::header_size(self.session_id)`: %s" % cls, where(cl))
+    QM = "Connection::max_datagram_size(&*self.quic_connection)"
+    forms = []
+    for p in nonpanic(walk(f, inline=STOP)):
+        applied = False
+        for e in p.events:
+            if e[0] == "call" and re.search(r"Option::(and_then|map)$", e[1]) and canon(e[2][0]) == QM:
+                qs = apply_closure(A, e[2][1], (("some", e[2][0]),), inline=STOP)
+                if qs is None:
+                    continue
+                applied = True
+                for q in nonpanic(qs):
+                    forms.append((e[1].split("::")[-1], path_sig(q)[1]))
+        if not applied:
+            forms.append(("direct", path_sig(p)[1]))
+    want = [("and_then", "return <impl usize>::checked_sub(some(%s),%s)" % (QM, HDR % "*self.session_id")),
+            ("map", "return <impl usize>::saturating_sub(some(%s),%s)" % (QM, HDR % "*self.session_id"))]
+    ctx.check("C03-R3", "max_datagram_size == quinn's max - size of the header that is written (varint of the quarter stream id)",
+              len(forms) == 1 and forms[0] in want,
+              "Connection::max_datagram_size is not `quinn_max.checked_sub(size(varint(quarter id of self.session_id)))`; normal form: %s" % forms, where(f),
+              key="max_datagram_size normal form")
+    f = A.fn("wtransport::datagram::Datagram::write")
+    ps = nonpanic(walk(f, inline=STOP))
+    evs = [e for p in ps for e in event_strs(p)]
+    QID = "QStreamId::into_varint(QStreamId::from_session_id(session_id))"
+    alloc = sorted({e for e in evs if e.startswith("from_elem(")})
+    ctx.check("C03-R3", "bytes allocated for a datagram == header size + payload length",
+              alloc == ["from_elem(0,AddWithOverflow(%s,<impl [T]>::len(&*payload)).0)" % (HDR % "session_id")],
+              "driver Datagram::write allocates %s, expected header_size(quarter id) + payload.len()" % alloc, where(f), key="datagram buffer size normal form")
+    puts = sorted({e for e in evs if e.startswith("<BufferWriter as BytesWriter>::put_varint(")})
+    ctx.check("C03-R3", "the header written is the varint of the quarter stream id", len(puts) == 1 and puts[0].endswith("," + QID + ")"),
+              "driver Datagram::write writes %s, expected put_varint(.., %s)" % (puts, QID), where(f), key="datagram header normal form")
     f = A.fn("wtransport::driver::Driver::send_datagram")
     SD = r"Connection::send_datagram\(&\*self\.quic_connection,Datagram::into_quic_bytes\(Datagram::write\(session_id,&\*payload\)\)\)"
     rows = [
